@@ -271,6 +271,42 @@ def check_parity(ctx):
     ctx.anchor("C20.P", "signed Pauli strings of length 1..3", n_runs, 168)
 
 
+def check_outcome_arrays(ctx, rule="C20.F"):
+    """The parity (and every measurement outcome) reaches the program through a Future that reads its own one-entry array lazily, also
+    after later flushes.  That only works while no later subroutine declares the same array address again: the memory manager's
+    addresses must be fresh for the lifetime of the connection.  Decided by executing (checker's interpreter) the repository's
+    MemoryManager: addresses handed out before and after reset() - what every flush and compile calls through Builder._reset() -
+    are pairwise distinct."""
+    from .. import circuit as C
+    repo = ctx.repo
+    mmc = repo.get_class("netqasm.sdk.memmgr", "MemoryManager")
+    bc = repo.get_class("netqasm.sdk.builder", "Builder")
+    get = mmc.methods.get("get_new_array_address")
+    rs = bc.methods.get("_reset")
+    if get is None or rs is None:
+        raise AnalysisError("MemoryManager.get_new_array_address / Builder._reset not found")
+    ctx.fn("MemoryManager.get_new_array_address")
+    try:
+        mem = C.object_from_init(repo, mmc, {}, kind="obj")
+        bld = C.object_from_init(repo, bc, {"_mem_mgr": mem}, kind="self")
+        sc = C.Scenario()
+        sc.plain_registers = True
+        seen = []
+        for flush in range(3):
+            for _ in range(2 + flush):
+                seen.append(C.Interp(repo, ctx.ev, sc, mmc).call_function(mmc.module, get, [], {}, self_obj=mem))
+            C.Interp(repo, ctx.ev, sc, bc).call_function(bc.module, rs, [], {}, self_obj=bld)
+        seen.append(C.Interp(repo, ctx.ev, sc, mmc).call_function(mmc.module, get, [], {}, self_obj=mem))
+        ok = all(isinstance(a_, int) and not isinstance(a_, bool) and a_ >= 0 for a_ in seen) and len(set(seen)) == len(seen)
+        ctx.check(rule, "MemoryManager.get_new_array_address:fresh-for-the-lifetime-of-the-connection", ok,
+                  f"array addresses handed out over three flushes are {seen}: an address is handed out again after a flush, so a later subroutine re-declares and returns the array an earlier "
+                  "outcome Future still reads - the earlier parity / measurement outcome silently becomes the later one", mmc.loc(get), sample={"addresses": seen})
+    except C.EvalRaise as ex_:
+        ctx.check(rule, "MemoryManager.get_new_array_address:fresh-for-the-lifetime-of-the-connection", False, f"raises {ex_}", mmc.loc(get))
+    except AnalysisError as ex_:
+        ctx.error(rule, f"MemoryManager cannot be evaluated: {ex_}")
+
+
 def run(ctx):
     check_methods(ctx)
     check_gates(ctx)
@@ -280,6 +316,7 @@ def run(ctx):
     c19.check_expansion(ctx, rule="C20.A", default_tolerance_only=True)
     c19.check_builder(ctx, rule="C20.A")
     check_parity(ctx)
+    check_outcome_arrays(ctx, "C20.F")
 
 
 G = "netqasm/sdk/toolbox/gates.py"
